@@ -16,6 +16,9 @@ cp /verif/KNOWN_FINDINGS.txt "$S.verif/" 2>/dev/null
 sed -i "s#=> /repo#=> $S.repo#" "$S.verif/harness/go.mod"
 mkdir -p "$S.verif/bin"
 ( cd "$S.verif/harness" && go build -tags verif -o "$S.verif/bin/check" ./cmd/check ) > "$S.verif/build.log" 2>&1 || { echo "BUILD-FAILURE"; head "$S.verif/build.log"; exit 2; }
+( cd "$S.verif/harness" && go build -tags verif,tiny -o "$S.verif/bin/check_tiny" ./cmd/check ) >> "$S.verif/build.log" 2>&1 || { echo "BUILD-FAILURE (tiny)"; head "$S.verif/build.log"; exit 2; }
+case " $* ${SEED_CMD:-} " in *C14*) ( cd "$S.verif/harness" && go build -o "$S.verif/bin/c14cases" ./cmd/c14cases ) >> "$S.verif/build.log" 2>&1 || { echo "BUILD-FAILURE (c14cases)"; head "$S.verif/build.log"; exit 2; };; esac
+case " $* ${SEED_CMD:-} " in *C19*) ( cd "$S.verif/harness" && go build -race -tags verif -o "$S.verif/bin/check_race" ./cmd/check ) >> "$S.verif/build.log" 2>&1 || { echo "BUILD-FAILURE (race)"; head "$S.verif/build.log"; exit 2; };; esac
 export VERIF_ROOT="$S.verif" VERIF_REPO="$S.repo"
 if [ -n "${SEED_CMD:-}" ]; then ( cd "$S.verif" && "$S.verif/bin/check" $SEED_CMD ); exit $?; fi
 for c in "$@"; do
